@@ -358,6 +358,36 @@ theorem worm_selection_asymmetry_witness (ch : Rat → Rat) (β : ℝ) :
     decide +kernel
   rw [hc]; push_cast; ring
 
+/-! ### worm move: the tolerance on energy differences is absolute (`f64::EPSILON`) -/
+
+/-- chain `0-1-2` with coupling `J`, no biases -/
+def tE (J : Rat) : List Edge := [((0, 1), J), ((1, 2), J)]
+def tB : List Rat := [0, 0, 0]
+
+/-- **Worm tolerance witness (energy units).** `do_worm_flip` treats an energy difference as zero
+when its absolute value is below `f64::EPSILON = 2^-52`, whatever the size of the couplings. With
+`J = 2^-60` every move looks free: from `000` the worm reaches `011` with probability `1/3`
+although the reported energies differ (`2^-59` vs `0`), for every acceptance function; with
+`J = 1` (same graph, same physics after rescaling `β`) that transition has probability `0`.
+So the sampler is not invariant under the change of energy unit `(J, h, 1/β) → c·(J, h, 1/β)` and
+for `|J| < 2^-53` the worm update does not conserve the energy of a bias-free system. -/
+theorem worm_absolute_tolerance_witness (ch : Rat → Rat) :
+    wormK ch (bindingMat (tE (1 / 2 ^ 60)) 3) tB true [false, false, false] [false, true, true] = 1 / 3 ∧
+    getEnergy (bindingMat (tE (1 / 2 ^ 60)) 3) tB [false, false, false] = 1 / 2 ^ 59 ∧
+    getEnergy (bindingMat (tE (1 / 2 ^ 60)) 3) tB [false, true, true] = 0 ∧
+    wormK ch (bindingMat (tE 1) 3) tB true [false, false, false] [false, true, true] = 0 := by
+  have h1 : wormRow ch (bindingMat (tE (1 / 2 ^ 60)) 3) tB true [false, false, false]
+      = wormRow (fun _ => 1) (bindingMat (tE (1 / 2 ^ 60)) 3) tB true [false, false, false] := by
+    apply wormRow_congr
+    decide +kernel
+  have h2 : wormRow ch (bindingMat (tE 1) 3) tB true [false, false, false]
+      = wormRow (fun _ => 1) (bindingMat (tE 1) 3) tB true [false, false, false] := by
+    apply wormRow_congr
+    decide +kernel
+  unfold wormK
+  rw [h1, h2]
+  decide +kernel
+
 /-! ### non-vacuity: the hypotheses are satisfiable by non-trivial instances -/
 
 /-- frustrated triangle with a double edge, couplings of both signs -/
